@@ -264,7 +264,7 @@ Proof.
   let s := eval vm_compute in c4 in change c4 with s.
   (* int a [ ] = { 1 , 2 } ; *)
   apply (io_init l 0 [_; _; _; _; _] _ [_; _; _] _ [] _ _ _);
-    [reflexivity | reflexivity | reflexivity | reflexivity | constructor | reflexivity | ].
+    [reflexivity | reflexivity | apply inner_of_plains_all; reflexivity | reflexivity | constructor | reflexivity | ].
   cbn [length Nat.add].
   (* void f ( ) { ... } *)
   apply (io_func l 11 [_] [_; _; _] 0 3 _ [_; _; _; _; _; _; _; _; _; _; _] _ [] [] []);
@@ -273,7 +273,7 @@ Proof.
   - cbn [length Nat.add].
     (* int b [ ] = { 3 } ; *)
     apply (io_init l 16 [_; _; _; _; _] _ [_] _ [] _ _ _);
-      [reflexivity | reflexivity | reflexivity | reflexivity | constructor | reflexivity | ].
+      [reflexivity | reflexivity | apply inner_of_plains_all; reflexivity | reflexivity | constructor | reflexivity | ].
     cbn [length Nat.add].
     apply (io_stmt l _ [_; _] [] []); [apply one_stmt; reflexivity | constructor].
 Qed.
@@ -573,6 +573,65 @@ Qed.
 Example block_scan :
   scan_file LJavaScript js9 = expected_all js9 js9_ds js9_ds /\
   scan_file LCSharp cs9 = expected_all cs9 cs9_ds cs9_ds.
+Proof. vm_compute. split; reflexivity. Qed.
+
+(* an initialiser with a parenthesis group inside its braces, and labels (rule io_label):
+   const obj = { a : 1 , b : call ( 2 ) } ; function g ( ) { x ; }          (TypeScript)
+   public : void f ( ) { default : x ; }                                     (C++) *)
+Definition ts10 : list token :=
+  toks [(0,s_const);(1,[111;98;106]);(3,s_eq);(2,[123]);(1,[97]);(3,s_colon);(7,[49]);(2,[44]);(1,[98]);(3,s_colon);(1,[99;97;108;108]);
+        (2,[40]);(7,[50]);(2,[41]);(2,[125]);(2,[59]);
+        (0,s_function);(1,[103]);(2,[40]);(2,[41]);(2,[123]);(1,[120]);(2,[59]);(2,[125])]%Z.
+Definition ts10_ds : list fdesc := [mkFd 17 16 20 20 23].
+Definition cpp10 : list token :=
+  toks [(0,[112;117;98;108;105;99]);(3,s_colon);(0,[118;111;105;100]);(1,[102]);(2,[40]);(2,[41]);(2,[123]);
+        (0,[100;101;102]);(3,s_colon);(1,[120]);(2,[59]);(2,[125])]%Z.
+Definition cpp10_ds : list fdesc := [mkFd 3 3 6 6 11].
+
+Example ts10_items : forall l, is_jsts l = true -> canonical_program_of l ts10 ts10_ds.
+Proof.
+  intros l Hl. unfold canonical_program_of, ts10_ds.
+  let s := eval vm_compute in ts10 in change ts10 with s.
+  apply (io_init l 0 [_; _; _] _ [_; _; _; _; _; _; _; _; _; _] _ [] _ _ _);
+    [reflexivity | reflexivity | | reflexivity | constructor | reflexivity | ].
+  - do 7 (apply inner_plain; [reflexivity|]).
+    apply (inner_group _ [_] _ []); [reflexivity | apply inner_of_plains_all; reflexivity | reflexivity | constructor].
+  - cbn [length Nat.add].
+    apply (io_func l 16 [] [_; _; _; _] 1 4 _ [_; _] _ [] [] []);
+      [reflexivity | | reflexivity | reflexivity | | intros E; destruct l; discriminate | constructor].
+    + apply (fh_function l _ _ [_; _]); [exact Hl | reflexivity | reflexivity | apply (one_bgroup _ [] _); reflexivity].
+    + apply (io_stmt l _ [_; _] [] []); [apply one_stmt; reflexivity | constructor].
+Qed.
+
+Example cpp10_canonical : canonical_program_of LCpp cpp10 cpp10_ds.
+Proof.
+  unfold canonical_program_of, cpp10_ds.
+  let s := eval vm_compute in cpp10 in change cpp10 with s.
+  apply (io_label LCpp 0); [reflexivity | reflexivity |].
+  cbn [Nat.add].
+  apply (io_func LCpp 2 [_] [_; _; _] 0 3 _ [_; _; _; _] _ [] [] []);
+    [reflexivity | | reflexivity | reflexivity | | discriminate | constructor].
+  - apply (fh_plain LCpp _ [_; _]); [reflexivity | reflexivity | apply (one_group _ [] _); reflexivity].
+  - cbn [length Nat.add].
+    apply (io_label LCpp 7); [reflexivity | reflexivity |].
+    apply (io_stmt LCpp _ [_; _] [] []); [apply one_stmt; reflexivity | constructor].
+Qed.
+
+Example init_label_hypotheses :
+  (wf_descs ts10 ts10_ds /\ lexically_canonical_of LTypeScript ts10 ts10_ds /\ lexically_canonical_of LJavaScript ts10 ts10_ds) /\
+  (wf_descs cpp10 cpp10_ds /\ lexically_canonical_of LCpp cpp10 cpp10_ds).
+Proof.
+  split; [split; [|split]|split].
+  - apply (canonical_of_wf LTypeScript); [discriminate | apply ts10_items; reflexivity].
+  - apply (canonical_of_lexical LTypeScript); [discriminate | apply ts10_items; reflexivity].
+  - apply (canonical_of_lexical LJavaScript); [discriminate | apply ts10_items; reflexivity].
+  - apply (canonical_of_wf LCpp); [discriminate | exact cpp10_canonical].
+  - apply (canonical_of_lexical LCpp); [discriminate | exact cpp10_canonical].
+Qed.
+
+Example init_label_scan :
+  scan_file LTypeScript ts10 = expected_all ts10 ts10_ds ts10_ds /\
+  scan_file LCpp cpp10 = expected_all cpp10 cpp10_ds cpp10_ds.
 Proof. vm_compute. split; reflexivity. Qed.
 
 (* the hypotheses of the end-to-end theorem hold of the examples: by the theorems ... *)
